@@ -471,6 +471,12 @@ Theorem C15_noise_tests_sound : forall gstat eps a female hap build t,
   (sex_route_x gstat hap build t = 0%Z -> sex_route_y gstat build t = 0%Z -> sex_stat_absent gstat hap build t).
 Proof. exact noise_tests_sound. Qed.
 
+(* the entry c15_noise_check evaluates contract and route of a chromosome in one pass; it is the pair of the two tests *)
+Theorem C15_noise_entry_tie : forall gstat hap build t,
+  sex_contract_route_x gstat hap build t = (sex_contract_x_b gstat hap build t, sex_route_x gstat hap build t) /\
+  sex_contract_route_y gstat build t = (sex_contract_y_b gstat build t, sex_route_y gstat build t).
+Proof. exact sex_contract_route_eq. Qed.
+
 (* shift_xx then brings chrX to the autosomal level: every chrX bin (outside PAR-X) of the result is within eps of the
    AUTOSOMAL level a, the autosomal bins are untouched, so chrX is within 2 eps of every autosomal bin -- with the true
    sex given, and equally when shift_xx guesses it (is_xx=None) *)
